@@ -120,6 +120,8 @@ func Oracle(tr *udpx.Trace) (string, []*engine.Finding) {
 					want = "ERR_READ_ADDRESS"
 				case op.Mod == "private" || op.Mod == "private-domain":
 					want = "ERR_ADDRESS_PRIVATE"
+				case op.Mod == "nxdomain":
+					want = "ERR_RESOLVE_ADDRESS"
 				case op.Mod == "loopback":
 					want = "ERR_ADDRESS_INVALID"
 				default:
@@ -218,6 +220,31 @@ func Oracle(tr *udpx.Trace) (string, []*engine.Finding) {
 		} else {
 			if a, r := promx.Sum(samples, "udp_nat_entries_added", nil), promx.Sum(samples, "udp_nat_entries_removed", nil); int(a) != addsN || int(r) != addsN {
 				add("prom-nat-entries", "udp_nat_entries_added=%v removed=%v, %d associations", a, r, addsN)
+			}
+			// one count per client datagram report and status
+			byStatus := map[string]int{}
+			for _, m := range tr.AllMetrics {
+				if m.Kind == "fromClient" {
+					byStatus[m.Status]++
+				}
+			}
+			for st, n := range byStatus {
+				if got := int(promx.Sum(samples, "udp_packets_from_client_per_location", map[string]string{"status": st})); got != n {
+					add("prom-packets", "udp_packets_from_client_per_location{status=%s}=%d, %d client datagrams were reported with that status", st, got, n)
+				}
+			}
+			if got, n := int(promx.Sum(samples, "udp_packets_from_client_per_location", nil)), len(byStatus); got == 0 && n > 0 {
+				add("prom-packets", "udp_packets_from_client_per_location is empty")
+			}
+			// the per-location series carries the same bytes, direction by direction
+			for dir, rep := range map[string]map[key]int64{"c>p": repCP, "p>t": repPT, "p<t": repTP, "c<p": repPC} {
+				var want int64
+				for _, v := range rep {
+					want += v
+				}
+				if got := int64(promx.Sum(samples, "data_bytes_per_location", map[string]string{"proto": "udp", "dir": dir})); got != want {
+					add("prom-bytes-per-location", "data_bytes_per_location{udp,%s}=%d, reported %d", dir, got, want)
+				}
 			}
 			for dir, rep := range map[string]map[key]int64{"c>p": repCP, "p>t": repPT, "p<t": repTP, "c<p": repPC} {
 				for k, v := range rep {
@@ -319,8 +346,22 @@ func menu() []udpx.Op {
 	m = append(m, udpx.Op{K: "A", D: 20 * time.Second}, udpx.Op{K: "A", D: 6 * time.Minute})
 	// replies too large to be packed / relayed, and a datagram whose write to the target fails
 	m = append(m, udpx.Op{K: "R", C: 0, T: 1, N: 65480}, udpx.Op{K: "R", C: 0, T: 1, N: 65507},
-		udpx.Op{K: "S", C: 0, Key: 0, N: 9, Mod: "raw:93.184.216.34:0"})
+		udpx.Op{K: "S", C: 0, Key: 0, N: 9, Mod: "raw:93.184.216.34:0"},
+		// a destination given as a name that does not resolve
+		udpx.Op{K: "S", C: 0, Key: 0, T: 1, N: 6, Mod: "nxdomain"})
 	return m
+}
+
+// deepMenu: few operations, long histories (an association that has seen several datagrams,
+// expires, and whose client comes back; another client in between).
+func deepMenu() []udpx.Op {
+	return []udpx.Op{
+		{K: "S", C: 0, Key: 0, T: 1, N: 20},
+		{K: "S", C: 1, Key: 1, T: 1, N: 14},
+		{K: "R", C: 0, T: 1, N: 16},
+		{K: "A", D: 20 * time.Second},
+		{K: "A", D: 6 * time.Minute},
+	}
 }
 
 func init() {
@@ -359,6 +400,34 @@ func init() {
 			ctx.RunCase("udp-metrics", "Q", scenario(in), in, nil)
 		}
 		ctx.Res.Note("udp-metrics: all %d^%d sequences; every third one also through the real Prometheus collectors", len(m), depth)
+		dm := deepMenu()
+		dd := 5
+		if ctx.Tier == "thorough" {
+			dd = 7
+		}
+		dtotal := int64(1)
+		for i := 0; i < dd; i++ {
+			dtotal *= int64(len(dm))
+		}
+		for code := int64(0); code < dtotal; code++ {
+			if !ctx.Mine(code) {
+				continue
+			}
+			if ctx.Expired() {
+				ctx.Incomplete("udp-metrics-deep", "udp-metrics-deep: time cap hit at sequence %d of %d (depth %d)", code, dtotal, dd)
+				return
+			}
+			ops := make([]udpx.Op, dd)
+			c := code
+			for i := 0; i < dd; i++ {
+				ops[i] = dm[c%int64(len(dm))]
+				c /= int64(len(dm))
+			}
+			in := input{Real: code%5 == 0, Ops: ops}
+			sc := scenario(in)
+			sc.Name = "udp-metrics-deep"
+			ctx.RunCase("udp-metrics-deep", "Q", sc, in, nil)
+		}
 	})
 	hk.Replayers["C16"] = func(ctx *engine.Ctx, rp engine.Replay) []*engine.Finding {
 		if strings.HasPrefix(rp.Unit, "report-race") {
@@ -369,6 +438,9 @@ func init() {
 			return []*engine.Finding{{Sig: "BROKEN:bad-input", Msg: err.Error()}}
 		}
 		rp.Choices = nil
+		if rp.Unit == "udp-metrics-deep" {
+			return engine.ReplayCase("udp-metrics-deep", scenario(in), rp)
+		}
 		return engine.ReplayCase("udp-metrics", scenario(in), rp)
 	}
 }
